@@ -231,6 +231,39 @@ fn ed_lin(a: EdFr, x: &EdwardsAffine, b: EdFr, y: &EdwardsAffine) -> EdwardsAffi
 pub struct IpaA;
 impl Adapter for IpaA {
     type F = EdFr; type P = DensePolynomial<EdFr>; type PC = IpaPC;
+    fn take_hash_log() -> Vec<String> {
+        use ark_serialize::CanonicalDeserialize;
+        ark_poly_commit::ipa_pc::verif_hooks::take_challenge_log().iter()
+            .map(|b| f_to_str(&EdFr::deserialize_compressed(&b[..]).unwrap())).collect()
+    }
+    fn open_draws(c: &Case, _npolys: usize) -> usize { 4 * ((c.usize1("supported_degree") + 1).next_power_of_two() + 4) }
+    fn key_obs(ck: &CK<Self>, _vk: &VK<Self>, out: &mut Out) {
+        let mut b: Vec<String> = vec!["ED".into()];
+        b.extend(ck.comm_key.iter().map(ser_hex));
+        b.push(ser_hex(&ck.h));
+        b.push(ser_hex(&ck.s));
+        out.input("basis", &b);
+        out.obs1("key_len", "N", ck.comm_key.len().to_string());
+    }
+    fn comm_obs(i: usize, cm: &Cm<Self>, st: &St<Self>, out: &mut Out) {
+        let mut v = vec![ser_hex(&cm.comm)];
+        if let Some(s) = &cm.shifted_comm { v.push(ser_hex(s)); }
+        out.obs(&format!("c.{}", i), "L:basis", &v);
+        let mut r = vec![f_to_str(&st.rand)];
+        if let Some(s) = &st.shifted_rand { r.push(f_to_str(s)); }
+        out.obs(&format!("rand.{}", i), "F", &r);
+    }
+    fn proof_obs(name: &str, pf: &Pf<Self>, out: &mut Out) {
+        out.obs1(&format!("{}.rounds", name), "N", pf.l_vec.len().to_string());
+        if !pf.l_vec.is_empty() {
+            out.obs(&format!("{}.l", name), "L:basis", &pf.l_vec.iter().map(ser_hex).collect::<Vec<_>>());
+            out.obs(&format!("{}.r", name), "L:basis", &pf.r_vec.iter().map(ser_hex).collect::<Vec<_>>());
+        }
+        out.obs1(&format!("{}.key", name), "L:basis", ser_hex(&pf.final_comm_key));
+        out.obs1(&format!("{}.c", name), "F", f_to_str(&pf.c));
+        if let Some(h) = &pf.hiding_comm { out.obs1(&format!("{}.hcomm", name), "L:basis", ser_hex(h)); }
+        out.obs1(&format!("{}.rand", name), "F", pf.rand.map(|x| f_to_str(&x)).unwrap_or("none".into()));
+    }
     fn size_shape_comm(cm: &Cm<Self>) -> Vec<String> { vec![(cm.shifted_comm.is_some() as usize).to_string()] }
     fn size_shape_proof(pf: &Pf<Self>) -> Vec<String> {
         vec![pf.l_vec.len().to_string(), pf.r_vec.len().to_string(), (pf.hiding_comm.is_some() as usize).to_string(), (pf.rand.is_some() as usize).to_string()]
